@@ -890,7 +890,7 @@ def main(argv=None):
     ck.prove()
     have_driver = ck.driver("ExC05")
 
-    n_random = 700 if ck.tier == "quick" else 40000
+    n_random = 700 if ck.tier == "quick" else 35000
     corpus = lifecycle_corpus()
     raws = raw_corpus()
     hists = corpus + raws + [gen_history(ck.rng) for _ in range(n_random)]
